@@ -574,7 +574,7 @@ def _real_tetraweights(rng, n):
         cb = total(obj, ef1b)
         if not ((np.diff(cb, axis=1) >= -1e-9).all() and np.allclose(cb[:, -1], nb) and (cb >= -1e-12).all()):
             bad.append("CumDOS with the first level on a band energy: %s" % cb.tolist())
-        ef2 = ef1 + 2e-5
+        ef2 = ef1 * (1 + 1e-6) + 1e-9          # a different Fermi array that is `allclose` to the first one
         c2_hist = total(obj, ef2)                                              # same object, after ef1
         c2_fresh = total(cls(eCenter=centre, eCorners=corners), ef2)
         if not np.allclose(c2_hist, c2_fresh, atol=1e-12):
